@@ -92,7 +92,7 @@ def render(t, off_text, off, shape):
 def switch_instants(ctx):
     """(t, tag): for every year both switch days +-3 h (dense near the switch), the local-time limits around them,
     first and last day of the year"""
-    near, near_step = (900, 60) if ctx.quick else (300, 1)
+    near, near_step = (900, 60) if ctx.quick else (120, 1)
     out = []
     for y in range(FIRST_YEAR, LAST_YEAR + 1):
         for m in (3, 10):
@@ -209,9 +209,28 @@ def show(obs):
     return {k: (list(v) if isinstance(v, tuple) else f"raises {type(v).__name__}: {v}") for k, v in obs.items()}
 
 
+def jstr(s):
+    """the entered string as a JSON-safe input record (lone surrogates cannot be written as UTF-8)"""
+    try:
+        s.encode("utf-8")
+        return {"entered_input": s}
+    except UnicodeEncodeError:
+        return {"entered_input_codepoints": [ord(c) for c in s]}
+
+
+def unjstr(inp):
+    if "entered_input_codepoints" in inp:
+        return "".join(chr(c) for c in inp["entered_input_codepoints"])
+    return inp.get("entered_input")
+
+
+def esc(s):
+    return s.encode("unicode_escape").decode("ascii")
+
+
 def library_parse(s):
     """what datetime.fromisoformat makes of the string the way parse_as_datetime calls it: None (rejected / naive) or
-    (utc second, sub-second part present?, offset in microseconds); used by the oracle for strings it did not render"""
+    (utc second (floor), offset in microseconds); used by the oracle for strings it did not render"""
     from datetime import datetime
 
     if not s:
@@ -236,11 +255,11 @@ class Oracle:
     def __init__(self, ctx):
         self.ctx, self.count, self.kinds = ctx, 0, {}
 
-    def _fail(self, kind, s, expected, obs, how):
+    def _fail(self, kind, s, expected, obs, how, shown=False):
         n = self.kinds.get(kind, 0)
         self.kinds[kind] = n + 1
         if n < self.MAX_PER_KIND:
-            self.ctx.fail(f"{kind}|{s}", {"entered_input": s, "evaluators": list(KEYS)}, expected, show(obs), how)
+            self.ctx.fail(f"{kind}|{esc(s)}", jstr(s) | {"evaluators": list(KEYS)}, expected, obs if shown else show(obs), how)
 
     def wellformed(self, s, obs):
         """no exception; a message exactly when unfulfilled"""
@@ -361,8 +380,6 @@ def run(ctx):
         stream.append(mutate(rng, s))
     n_parsed_other = 0
     for s in stream:
-        if not s and s in seen:
-            continue
         obs = observe(ev, s)
         n_parsed_other += oracle.any_string(s, obs, "oracle on the malformed / fuzz stream")
         add_case(s, obs, "malformed/fuzz")
@@ -374,7 +391,9 @@ def run(ctx):
     for i, (t, tag) in enumerate(instants):
         verdicts = set()
         for j, (ot, off) in enumerate(OFFSETS):
-            shapes = SHAPES if not ctx.quick else (SHAPES[(i + j) % len(SHAPES)], SHAPES[(i + 3 * j + 1) % len(SHAPES)])
+            shapes = [SHAPES[(i + j) % len(SHAPES)], SHAPES[(i + 3 * j + 1) % len(SHAPES)]]
+            if not ctx.quick:
+                shapes.append(SHAPES[(i + 5 * j + 2) % len(SHAPES)])
             for sh_i, sh in enumerate(shapes):
                 s = render(t, ot, off, sh)
                 obs = observe(ev, s)
@@ -383,13 +402,13 @@ def run(ctx):
                 if all(isinstance(obs[k], tuple) for k in KEYS):
                     verdicts.add(tuple(obs[k] for k in KEYS[1:]))
                     n_fulfilled += any(obs[k][0] for k in KEYS[1:])
-                # correspondence: quick = one shape for a third of the offsets (rotating), thorough = everything
-                if (not ctx.quick) or (sh_i == 0 and (i + j) % 3 == 0):
+                # correspondence: one shape for a rotating third (quick) / half (thorough) of the offsets of each instant
+                if sh_i == 0 and (i + j) % (3 if ctx.quick else 2) == 0:
                     add_case(s, obs, tag)
         if len(verdicts) > 1:
             s0 = render(t, "Z", 0, ("T", "sec"))
             oracle._fail("invariance", s0, "one verdict of 932..935 for all offsets and shapes of the same instant", {"932-935 verdicts seen": sorted(map(str, verdicts))},
-                         f"oracle: offset invariance at t={t} ({tag})")
+                         f"oracle: offset invariance at t={t} ({tag})", shown=True)
         per_instant[t] = verdicts
 
     # --- 3. thorough: every second of the switch days +- 2 h (oracle only), one spelling each
@@ -413,7 +432,7 @@ def run(ctx):
         ctx.broke("correspondence (C20) could not be evaluated in Coq", err)
     for i in bad[:20]:
         s, obs, what = meta[i]
-        ctx.broke("correspondence mismatch (C20): model and ahbicht differ", json.dumps({"entered_input": s, "observed": show(obs), "stream": what}, ensure_ascii=True))
+        ctx.broke("correspondence mismatch (C20): model and ahbicht differ", json.dumps(jstr(s) | {"observed": show(obs), "stream": what}, ensure_ascii=True))
     n_eval += n
     aware = sum(1 for s, obs, _ in meta if library_parse(s) is not None)
     ctx.notes["correspondence"] = {"cases": n, "mismatches": len(bad), "strings_parsed_as_aware_datetime": aware,
@@ -425,18 +444,18 @@ def run(ctx):
     ctx.coverage["distinct_nontrivial"] = aware
     ctx.coverage["rule"] = (
         "correspondence (model vs FcEvaluator.evaluate_931..935, all five per string): for every year 1996..2037 both switch days +-3 h "
-        f"({'60 s near the switch, 900 s elsewhere' if ctx.quick else '1 s near the switch, 300 s elsewhere'}), the seconds around local 00:00/06:00 of those days, first and last day of each year, "
+        f"({'60 s within 15 min of the switch, 900 s elsewhere' if ctx.quick else '1 s within 2 min of the switch, 300 s elsewhere'}), the seconds around local 00:00/06:00 of those days, first and last day of each year, "
         "x offsets {Z,+00:00,+01:00,-01:00,+02:00,+05:30,-08:00,+14:00,-12:00,+23:59,-23:59,+01:00:30} x shapes {T or space; HH:MM, :SS, .f{1,3,6}} "
-        f"({'a rotating third of the offsets with one shape per instant' if ctx.quick else 'all'}); the malformed list (empty, naive, truncated, 24:00, month 13, year 1/9999 edges, "
+        f"(a rotating {'third' if ctx.quick else 'half'} of the offsets with one shape per instant; the oracle sees all offsets with {'two' if ctx.quick else 'three'} shapes); the malformed list (empty, naive, truncated, 24:00, month 13, year 1/9999 edges, "
         "lower-case z, spaces, NUL, surrogates, week dates, basic format) and random spellings/mutations; non-trivial = distinct strings that parse as an aware datetime "
         "(the verdict is a judgement about an instant); tie T: table_offset vs pytz fromutc on every transition +-1 s and random instants of year 1..9999; "
         "oracle = independent integer EU rule on every rendered string (all offsets), offset invariance per instant, no exception, message iff unfulfilled")
     for pick in ("2022-03-27T00:00:00+01:00", "0001-01-01T00:00:00+05:00"):
         for s, obs, what in meta:
             if s == pick:
-                ctx.sample({"entered_input": s, "observed": show(obs), "stream": what})
+                ctx.sample(jstr(s) | {"observed": show(obs), "stream": what})
     for s, obs, what in meta[len(stream) + 5:: max(1, len(meta) // 4)]:
-        ctx.sample({"entered_input": s, "observed": show(obs), "stream": what})
+        ctx.sample(jstr(s) | {"observed": show(obs), "stream": what})
     ctx.trusted += ["CPython 3.12 datetime.fromisoformat / astimezone and pytz DstTzInfo.fromutc are modelled (Model/Time.v), not verified; tied by the C20 correspondence "
                     f"({n} strings in this run) and by the fingerprint of fromutc's source in vlib/gen_tz.py"]
     return finish(ctx, assumptions=[
@@ -469,7 +488,7 @@ def _dispatch_check(ctx, ev, strings):
                 got = e
             n += 1
             if got != direct[k]:
-                ctx.fail(f"dispatch|{k}|{s}", {"entered_input": s, "evaluators": [k]}, {k: list(direct[k])}, show({k: got}),
+                ctx.fail(f"dispatch|{k}|{esc(s)}", jstr(s) | {"evaluators": [k]}, {k: list(direct[k])}, show({k: got}),
                          "oracle: evaluate_single_format_constraint(key) answers like evaluate_<key>(text)")
     return n
 
@@ -477,7 +496,7 @@ def _dispatch_check(ctx, ev, strings):
 def replay(path):
     r = json.load(open(path, encoding="utf-8"))
     inp = r.get("input") or {}
-    s = inp.get("entered_input")
+    s = unjstr(inp)
     print("replay", repr(s))
     print(" expected:", r.get("expected"))
     print(" recorded:", r.get("observed"), "|", r.get("how"))
